@@ -67,20 +67,41 @@ class K5(PaneBase, in_format=('struct', 'tuple')):
         HOOK[0] += 1
 
 
+class KB(PaneBase, in_format=('struct', 'tuple')):
+    x: int = 1
+    y: str = 'y'
+
+    def __post_init__(self):
+        HOOK[0] += 1
+
+
+class Mix:
+    """a plain mixin that happens to carry an attribute named like a field"""
+    y = 'mixed'
+
+
+class K6(Mix, KB):
+    """inherited defaulted fields whose names are shadowed by NON-field class attributes (no annotation: not an override)"""
+    x = 10
+    z: int = 0
+
+
 FIELDS = {
+    K6: (('x', int), ('y', str), ('z', int)),
     K5: (('x', int), ('y', float), ('z', int)),
     K1: (('a', int), ('b', float), ('c', List[int]), ('d', Optional[int])),
     K2: (('a', int), ('b', Dict[str, int]), ('k', str), ('m', List[str])),
     K3: (('p', P1), ('xs', List[int]), ('n', int)),
 }
-NPOS = {K1: 4, K2: 2, K3: 3, K5: 3}
+NPOS = {K1: 4, K2: 2, K3: 3, K5: 3, K6: 3}
 DEFAULTS = {
+    K6: {'x': lambda: 1, 'y': lambda: 'y', 'z': lambda: 0},
     K5: {'y': lambda: 0.5, 'z': lambda: 0},
     K1: {'b': lambda: 1.5, 'c': lambda: [], 'd': lambda: None},
     K2: {'a': lambda: 0, 'b': lambda: {}, 'k': lambda: 'k', 'm': lambda: ['m']},
     K3: {'p': lambda: P1(a=1), 'xs': lambda: [1, 2], 'n': lambda: 7},
 }
-MUTABLE = {K1: ('c',), K2: ('b', 'm'), K3: ('xs',), K5: ()}
+MUTABLE = {K1: ('c',), K2: ('b', 'm'), K3: ('xs',), K5: (), K6: ()}
 for _cls in FIELDS:
     make_converter(_cls)
     for (_n, _ty) in FIELDS[_cls]:
@@ -138,8 +159,12 @@ def val_for(ty_name, sel, i, s):
             return {'a': i}
         elif sel == 1:
             return {'a': 2, 'b': 3}               # nested int -> float widening
-        else:
+        elif sel == 2:
             return {'a': 'x'}
+        elif sel == 3:
+            return P1.make_unchecked(a=i, b=3)    # an INSTANCE of the field's class that was never validated: normalised like its data
+        else:
+            return P1.make_unchecked(a='x')       # ... with invalid content: rejected like its data
     raise KeyError(ty_name)
 
 
@@ -148,6 +173,10 @@ def expected_of(ty, v):
         return True, pane.convert(v, ty)
     except ConvertError:
         return False, None
+    except Exception as e:
+        if crosshair_exc(e) or not isinstance(v, P1):
+            raise
+        return False, None       # an instance with invalid content cannot even be serialised: not convertible
 
 
 def attempt(f):
@@ -166,10 +195,17 @@ def attempt(f):
         return ('other', e)
 
 
+def raw_of(v):
+    """the interchange data an (unvalidated) P1 instance stands for"""
+    if isinstance(v, P1):
+        return {'a': v.a, 'b': v.b}
+    return v
+
+
 def _as_data(kw, data_keys):
     if not data_keys:
-        return dict(kw)
-    return {data_keys.get(k, k): v for (k, v) in kw.items()}
+        return {k: raw_of(v) for (k, v) in kw.items()}
+    return {data_keys.get(k, k): raw_of(v) for (k, v) in kw.items()}
 
 
 def check_instance(cls, x, supplied, exp):
@@ -209,7 +245,7 @@ def run_paths(cls, kw, positional, broken_hook=False, data_keys=None):
         args = [kw[name] for (name, ty) in FIELDS[cls] if name in kw]
         r_ctor = attempt(lambda: cls(*args))
         h1 = HOOK[0]
-        r_data = attempt(lambda: cls.from_data(list(args)))
+        r_data = attempt(lambda: cls.from_data([raw_of(a) for a in args]))
     else:
         r_ctor = attempt(lambda: cls(**kw))
         h1 = HOOK[0]
@@ -217,6 +253,8 @@ def run_paths(cls, kw, positional, broken_hook=False, data_keys=None):
     h2 = HOOK[0]
     if r_data[0] == 'other':
         return 9 if broken_hook else 10
+    if r_ctor[0] == 'other' and not all_ok and any(isinstance(v, P1) for v in kw.values()):
+        r_ctor = ('reject', None)                     # (serialising an instance with invalid content may fail with its own error)
     if r_ctor[0] == 'other' and not broken_hook:      # (a failing hook may escape from the constructor as it is)
         return 10
     should_build = all_ok and not required_missing and not broken_hook
@@ -250,7 +288,7 @@ def run_paths(cls, kw, positional, broken_hook=False, data_keys=None):
                 m.append(99)
             else:
                 m['leak'] = 99
-            z = attempt(lambda: cls.from_data(list(args)) if positional else cls.from_data(_as_data(kw, data_keys)))
+            z = attempt(lambda: cls.from_data([raw_of(a) for a in args]) if positional else cls.from_data(_as_data(kw, data_keys)))
             w = attempt(lambda: cls(*args) if positional else cls(**kw))
             for r in (z, w):
                 if r[0] != 'ok':
@@ -367,8 +405,39 @@ def body_k5_positional(n: int, ff: int, sf: int, i: int, s: str) -> int:
     return r
 
 
+# ---- K6 (inherited defaults under shadowing class attributes)
+@obligation(pre="0 <= ff <= 2 and 0 <= sf <= 5 and (ff != 1 or sf <= 1)", witnesses=(0, -1), timeout=300)
+def body_k6_keywords(px: bool, py: bool, pz: bool, ff: int, sf: int, i: int, s: str) -> int:
+    """K6 (inherited defaulted fields shadowed by a non-annotated class attribute and by a mixin attribute): unsupplied fields take the FIELD default on every path"""
+    if len(s) > 1:
+        raise OutOfBound()
+    kw = {}
+    if px:
+        kw['x'] = val_for('int', sf if ff == 0 else 2, i, s)
+    if py:
+        kw['y'] = val_for('str', _sel(ff, 1, sf), i, s)
+    if pz:
+        kw['z'] = val_for('int', sf if ff == 2 else 2, i, s)
+    return run_paths(K6, kw, False)
+
+
+@obligation(pre="0 <= n <= 3 and 0 <= ff <= 2 and 0 <= sf <= 5 and (ff != 1 or sf <= 1)", witnesses=(0, -1), timeout=300)
+def body_k6_positional(n: int, ff: int, sf: int, i: int, s: str) -> int:
+    """K6: positional arguments / sequence data"""
+    if len(s) > 1:
+        raise OutOfBound()
+    kw = {}
+    if n >= 1:
+        kw['x'] = val_for('int', sf if ff == 0 else 2, i, s)
+    if n >= 2:
+        kw['y'] = val_for('str', _sel(ff, 1, sf), i, s)
+    if n >= 3:
+        kw['z'] = val_for('int', sf if ff == 2 else 2, i, s)
+    return run_paths(K6, kw, True)
+
+
 # ---- K3 (nested dataclass factory; the empty mapping is valid)
-@obligation(pre="0 <= ff <= 2 and 0 <= sf <= 5 and (ff != 0 or sf <= 2) and (ff != 1 or sf <= 3)", witnesses=(0, -1), timeout=300)
+@obligation(pre="0 <= ff <= 2 and 0 <= sf <= 5 and (ff != 0 or sf <= 4) and (ff != 1 or sf <= 3)", witnesses=(0, -1), timeout=300)
 def body_k3_keywords(pp: bool, px: bool, pn: bool, ff: int, sf: int, i: int, s: str) -> int:
     """K3 (every field defaulted, nested dataclass factory): includes Cls() vs from_data({})"""
     if len(s) > 1:
@@ -383,7 +452,7 @@ def body_k3_keywords(pp: bool, px: bool, pn: bool, ff: int, sf: int, i: int, s: 
     return run_paths(K3, kw, False)
 
 
-@obligation(pre="0 <= n <= 3 and 0 <= ff <= 2 and 0 <= sf <= 5 and (ff != 0 or sf <= 2) and (ff != 1 or sf <= 3)", witnesses=(0, -1), timeout=300)
+@obligation(pre="0 <= n <= 3 and 0 <= ff <= 2 and 0 <= sf <= 5 and (ff != 0 or sf <= 4) and (ff != 1 or sf <= 3)", witnesses=(0, -1), timeout=300)
 def body_k3_positional(n: int, ff: int, sf: int, i: int, s: str) -> int:
     """K3: includes Cls() vs from_data([])"""
     if len(s) > 1:
@@ -398,7 +467,7 @@ def body_k3_positional(n: int, ff: int, sf: int, i: int, s: str) -> int:
     return run_paths(K3, kw, True)
 
 
-for _cls, _kw in ((K5, {'x': 1, 'y': 2}), (K5, {'x': 1}), (K1, {'a': 1}), (K1, {'a': 1, 'c': [1]}), (K1, {}), (K1, {'a': 'x'}), (K2, {}), (K2, {'b': {'q': 1}}), (K3, {}),
+for _cls, _kw in ((K6, {}), (K6, {'z': 1}), (K6, {'x': 2, 'y': 'q'}), (K3, {'p': P1.make_unchecked(a=1, b=3)}), (K3, {'p': P1.make_unchecked(a='x')}), (K5, {'x': 1, 'y': 2}), (K5, {'x': 1}), (K1, {'a': 1}), (K1, {'a': 1, 'c': [1]}), (K1, {}), (K1, {'a': 'x'}), (K2, {}), (K2, {'b': {'q': 1}}), (K3, {}),
                   (K3, {'p': {'a': 1}})):
     for _pos in (False, True):
         try:
